@@ -118,6 +118,10 @@ type (
 		// CodeCloser is non-nil when the code should be closed after this module.
 		CodeCloser api.Closer
 
+		// memoryReleased is true once this instance has given up its use of
+		// MemoryInstance (see MemoryInstance.releaseUser).
+		memoryReleased bool
+
 		// s is the Store on which this module is instantiated.
 		s *Store
 		// prev and next hold the nodes in the linked list of ModuleInstance held by Store.
